@@ -707,6 +707,11 @@ func (c *SpecCtx) call(e *SExpr) *Val {
 			return &Val{T: X.mapLen(c.state(), u, x.T), GT: intT}
 		case *types.Array:
 			return &Val{T: ts.IntLit(u.Len()), GT: intT}
+		case *types.Chan:
+			if e.Name == "cap" {
+				// capacity the channel was made with (ghost; a channel's capacity never changes)
+				return &Val{T: ts.Select(X.heap(c.state(), "GM|chancap", ArraySort(SInt, SInt)), x.T), GT: intT}
+			}
 		}
 		c.fail("len of %s", typeKey(x.GT))
 	case "arr": // backing-array identity of a slice
